@@ -185,7 +185,15 @@ func (c *C14) Run(x *engine.Ctx) *engine.Violation {
 			if w.Cycles > 1 && w.StopAfterBegun < 0 {
 				cyc = t.Draw(w.Cycles) // requests also in later start/stop cycles on the same addresses
 			}
-			w.AddConn(&service.ClientConn{Addr: service.ProverAddr, Reqs: []*service.Request{r}, Frag: t.Draw(4), StartStep: 60 + t.Draw(120), Cycle: cyc})
+			cc := &service.ClientConn{Addr: service.ProverAddr, Reqs: []*service.Request{r}, Frag: t.Draw(4), StartStep: 60 + t.Draw(120), Cycle: cyc}
+			if t.Chance(1, 4) {
+				// history: a client that gives up (resets its connection) after its request was delivered, at a
+				// tape-chosen moment before the response - typically while the handler is parked mid-proof.
+				// Nothing is owed to that client any more; every later stop must still complete.
+				cc.LeaveBeforeResponse = true
+				x.S.Count("fault:net/client-abandons-accepted-request")
+			}
+			w.AddConn(cc)
 		}
 	}
 	leak := runWorld(x, sim, w, c.sys.Mode)
